@@ -203,6 +203,11 @@ func history(r *vh.Run, hidx int) {
 	if idleExpiry {
 		pol.Grace = 25 * time.Millisecond
 		r.Count("histories_with_repository_expiry", 1)
+	} else if hidx%5 == 1 {
+		// no grace period: whatever a request has replaced (a superseded referrers answer) is removed by the very next
+		// background collection - a request that still needs it must be holding the repository
+		pol.Grace = -1
+		r.Count("histories_without_grace_period", 1)
 	}
 	// a sixth of the histories run on the memory store over a directory that a directory store filled before: the
 	// clients' first requests load the repository from disk while the others already use it
@@ -848,6 +853,79 @@ func expiryHolderTrial(r *vh.Run, i int) {
 	}
 }
 
+// listingHoldsRepositoryTrial: a referrers listing reads the repository index and then the stored answer it names.
+// Between the two steps another client pushes a second artifact (the answer is replaced) and a collection runs - with
+// no grace period it removes the superseded answer at once.  The listing has been in flight the whole time: it
+// answers with the list it found or a later one, never with a list that lacks the artifact acknowledged before it
+// started.  The sync shim stops the listing right before it takes the repository lock to read the answer, so the
+// order of the steps is a fact.  (The collection may have to wait for the listing - then it simply has not run yet.)
+func listingHoldsRepositoryTrial(r *vh.Run, i int) {
+	kind := []vh.StoreKind{vh.Dir, vh.Mem, vh.MemDir}[i%3]
+	root := ""
+	if kind != vh.Mem {
+		root = r.TempDir("c11l")
+		defer vh.RemoveAll(root)
+	}
+	srv := vh.New(vh.Conf(kind, root, vh.Policy{Grace: -1}))
+	defer srv.Close()
+	wit := map[string]any{"trial": i, "store": kind.String()}
+	cfg := []byte(fmt.Sprintf(`{"l":%d}`, i))
+	cb := &vh.Blob{Name: "cfg", B: cfg, D: vh.DigestOf("sha256", cfg)}
+	vh.Do(srv, vh.Req{Method: "POST", URL: "/v2/l/blobs/uploads/?digest=" + cb.D, Body: cfg})
+	put := func(m *vh.Man, ref string) int {
+		return vh.Do(srv, vh.Req{Method: "PUT", URL: "/v2/l/manifests/" + ref, H: map[string]string{"Content-Type": m.MT}, Body: m.Raw}).Status
+	}
+	subj := vh.MkImage("S", "sha256", vh.MTImage, cb, vh.MTConfig, nil, "", "", map[string]string{"n": "S", "i": fmt.Sprint(i)})
+	a1 := vh.MkImage("A1", "sha256", vh.MTImage, cb, vh.MTConfig, nil, subj.D, "application/x.a", map[string]string{"n": "A1", "i": fmt.Sprint(i)})
+	a2 := vh.MkImage("A2", "sha256", vh.MTImage, cb, vh.MTConfig, nil, subj.D, "application/x.a", map[string]string{"n": "A2", "i": fmt.Sprint(i)})
+	if put(subj, "s") != 201 || put(a1, a1.D) != 201 {
+		r.Inconclusive("listingHoldsRepositoryTrial: setup refused")
+		return
+	}
+	fn := map[vh.StoreKind]string{vh.Dir: "(*dirRepo).blobGet", vh.Mem: "(*memRepo).blobGet", vh.MemDir: "(*memRepo).blobGet"}[kind]
+	parked, release := vsync.SetGateBefore(fn)
+	defer release()
+	type ans struct {
+		status int
+		body   string
+	}
+	listed := make(chan ans, 1)
+	go func() {
+		rs := vh.Do(srv, vh.Req{Method: "GET", URL: "/v2/l/referrers/" + subj.D})
+		listed <- ans{rs.Status, string(rs.Body)}
+	}()
+	select {
+	case <-parked:
+	case a := <-listed:
+		// the listing never read a stored answer (served another way): nothing to show
+		r.Count("listing_trials_gate_not_reached", 1)
+		_ = a
+		return
+	case <-time.After(10 * time.Second):
+		r.Count("listing_trials_gate_not_reached", 1)
+		release()
+		<-listed
+		return
+	}
+	st2 := put(a2, a2.D)
+	gcDone := make(chan struct{})
+	go func() { _ = srv.VerifGC(context.Background(), "l"); close(gcDone) }()
+	select {
+	case <-gcDone:
+		r.Count("listing_trials_collection_ran_during_listing", 1)
+	case <-time.After(300 * time.Millisecond):
+		r.Count("listing_trials_collection_waited_for_listing", 1)
+	}
+	release()
+	a := <-listed
+	<-gcDone
+	r.Count("listing_trials", 1)
+	wit["second_push"], wit["listing_status"], wit["listing"] = st2, a.status, a.body
+	if a.status != 200 || !strings.Contains(a.body, a1.D) {
+		r.Violation("listing-lacks-acknowledged-artifact", fmt.Sprintf("%s store, no grace period: a referrers listing in flight while a second artifact was pushed and a collection ran answered %d without artifact A1, which was acknowledged before the listing started and never deleted: %.200s", kind, a.status, a.body), wit)
+	}
+}
+
 func main() {
 	r := vh.Start()
 	if strings.HasPrefix(r.Variant(), "vsync") {
@@ -859,6 +937,11 @@ func main() {
 		nx := r.N(8, 80)
 		vh.Parallel(nx, 4, func(i int) { expiryHolderTrial(r, i) })
 		r.Require("expiry_holder_trials", int64(nx/2))
+		nl := r.N(9, 90)
+		for i := 0; i < nl; i++ { // one at a time: the gate is process-wide
+			listingHoldsRepositoryTrial(r, i)
+		}
+		r.Require("listing_trials", int64(nl/2))
 	}
 	r.Require("histories", int64(n))
 	r.Require("operations", int64(n*40))
